@@ -108,8 +108,15 @@ def _plan(draw, max_len):
     dtype = None
     if cls != "M" and draw(st.integers(0, 3)) == 0 and DTYPES[kinds[0]]:
         dtype = draw(st.sampled_from(DTYPES[kinds[0]]))
-    return {"cls": cls, "kinds": kinds, "items": items, "dtype": dtype,
+    plan = {"cls": cls, "kinds": kinds, "items": items, "dtype": dtype,
             "container": draw(st.sampled_from(["list", "list", "tuple", "gen"]))}
+    if draw(st.integers(0, 11)) == 0:
+        # a long sequence: one element repeated about a thousand times in front of the drawn items, so that whatever
+        # decides by looking at the first N elements only (type sniffing) is out of date further down
+        first = next((i for i in items if not _missing_in(i)), None)
+        head = draw(st.sampled_from([first, first, ["none"]])) or ["none"]
+        plan["head"] = [head, draw(st.sampled_from([100, 999, 1000, 1001, 1024, 2049, 5003]))]
+    return plan
 
 
 def strategy(tier):
@@ -148,6 +155,9 @@ def _canon(it, stringish=True):
 
 
 def check(plan, ctx):
+    if plan.get("head"):
+        plan = dict(plan, items=[plan["head"][0]] * plan["head"][1] + plan["items"])
+        ctx.cls("long_sequence", "long_sequence_with_missing_head" if plan["head"][0][0] in ("none", "nan") else "long_sequence_with_value_head")
     items, kinds, cls = plan["items"], plan["kinds"], plan["cls"]
     n = len(items)
     vals = [_real(i) for i in items]
